@@ -32,12 +32,23 @@ static int alloc_should_fail(void)
 }
 void *__wrap_malloc(size_t n) { void *r; if (alloc_should_fail()) return NULL; r = __real_malloc(n); if (r) ++alloc_live; return r; }
 void *__wrap_calloc(size_t a, size_t b) { void *r; if (alloc_should_fail()) return NULL; r = __real_calloc(a, b); if (r) ++alloc_live; return r; }
+/* realloc alone: alloc_realloc_fail_at (1-based, 0 = off) fails exactly that realloc call; alloc_realloc_hook (if set) is
+ * told about every call (newp == NULL: the call failed), so that a harness can tell which array a call grew */
+static unsigned long alloc_realloc_count, alloc_realloc_fail_at;
+static void (*alloc_realloc_hook)(void *oldp, void *newp, size_t n);
 void *__wrap_realloc(void *p, size_t n)
 {
 	void *r;
-	if (alloc_should_fail()) return NULL;
+	++alloc_realloc_count;
+	if (alloc_realloc_fail_at && alloc_realloc_count == alloc_realloc_fail_at) {
+		++alloc_count; ++alloc_failed;
+		if (alloc_realloc_hook) alloc_realloc_hook(p, NULL, n);
+		return NULL;
+	}
+	if (alloc_should_fail()) { if (alloc_realloc_hook) alloc_realloc_hook(p, NULL, n); return NULL; }
 	r = __real_realloc(p, n);
 	if (!p && r) ++alloc_live;
+	if (alloc_realloc_hook) alloc_realloc_hook(p, r, n);
 	return r;
 }
 void __wrap_free(void *p) { if (p) --alloc_live; __real_free(p); }
